@@ -190,6 +190,25 @@ func runC14(c *fw.Ctx) {
 	r := c.Rng
 	g := lab.NewPathGen(r)
 	sw := &c14sweep{c: c}
+	// every 8th case runs with the package's debug switch on: what is stored may not depend on it
+	if (c.Idx/16+c.Idx)%8 == 6 {
+		util.DebugMPTNode = true
+		defer func() { util.DebugMPTNode = false }()
+		c.Count("cases_with_debug_switch_on", 1)
+	}
+	// every 12th case: one trie object lives through all rounds (SetVersion per round), so that nodes whose origin differs
+	// from the trie's version at the time of the save are written; the store is swept after every save
+	if (c.Idx/16+c.Idx)%12 == 7 {
+		longLivedHistory(c, "C14", func(disk string, pndb *util.PNodeDB) bool {
+			if !sw.store("persistent store under a long-lived trie", pndb, disk) {
+				c.Violate("", "history: %s", strings.Join(c.Trace(), "; "))
+				return false
+			}
+			return true
+		})
+		c.Count("histories:long-lived-trie", 1)
+		return
+	}
 	switch c.Idx % 3 {
 	case 0, 1: // direct histories on one of the four stores, with version bumps
 		mdl := map[string][]byte{}
@@ -359,7 +378,7 @@ func init() {
 		ID:           "C14",
 		EvalCounters: []string{"nodes_swept"},
 		Level:        "exploration",
-		Rule: "(The library's own partial-state validator must agree with the sweep: MemoryNodeDB.Validate/ComputeRoot accept a store holding exactly the reachable nodes and refuse it once one node is replaced by content that does not hash to its key.) workloads: (a) direct insert/delete histories with version bumps on memory / layered / persistent / layered-over-persistent stores, (b) multi-round block histories saved to the persistent store (same generator as C04, every 8th with a fat round of several hundred changed nodes in one save); values are biased to separator bytes " +
+		Rule: "(Every 8th case runs with the package's debug switch on; every 12th case keeps one trie object through all rounds - SetVersion per round, saved every round - and sweeps the persistent store after every save, so that nodes whose origin differs from the trie version at save time are written.) (The library's own partial-state validator must agree with the sweep: MemoryNodeDB.Validate/ComputeRoot accept a store holding exactly the reachable nodes and refuse it once one node is replaced by content that does not hash to its key.) workloads: (a) direct insert/delete histories with version bumps on memory / layered / persistent / layered-over-persistent stores, (b) multi-round block histories saved to the persistent store (same generator as C04, every 8th with a fat round of several hundred changed nodes in one save); values are biased to separator bytes " +
 			"(':', '::::', leading/trailing ':', 0x00, 200-byte binary, ':'+32 random bytes, hex-looking strings). Every 8 operations and at the end, every node of every store level involved is swept: stored key == GetHashBytes() == sha3(LE64(origin)‖body) recomputed by the harness' own parser from the stored encoding; " +
 			"CreateNode(enc) has the same hash and re-encodes to the same bytes; for a quarter of the nodes the version mark alone is advanced (origin != version) and the round trip repeated (fields preserved, hash unchanged, stored layout respected); after each direct history the state is synced with MergeDB from a donor store in which one node is planted under another node's key, and the target store is swept; the trie root re-computes bottom-up from stored encodings and reads the model content (for every saved root in (b)). distinct non-trivial = distinct stored encodings swept",
 		Cases: func(tier string) int {
@@ -371,7 +390,7 @@ func init() {
 		Run: runC14,
 		Floors: map[string]int64{"nodes_swept": 300000, "root_recomputations": 20000, "kind:leaf-emptypath": 1000, "kind:leaf-path": 1000, "kind:branch-value": 1000, "kind:branch-novalue": 1000, "kind:ext-len1": 1000, "kind:ext-long": 1000,
 			"kind:value-with-separator": 10000, "kind:ext-childhash-contains-separator-byte": 100, "distinct:branch_child_counts": 3,
-			"histories:memory": 100, "histories:persistent": 100, "histories:rounds-on-persistent": 1000, "fat_rounds": 100, "version_mark_round_trips": 50000, "validator_agreements": 4000, "miskeyed_donor_syncs": 3000},
+			"histories:memory": 100, "histories:persistent": 100, "histories:rounds-on-persistent": 1000, "fat_rounds": 100, "version_mark_round_trips": 50000, "validator_agreements": 3500, "cases_with_debug_switch_on": 1000, "histories:long-lived-trie": 600, "miskeyed_donor_syncs": 3000},
 		Assumptions: []string{"node kinds are those the operation histories produce; the hash format is the one read from the pinned code (see C02)"},
 	})
 }
